@@ -41,13 +41,14 @@ func UnixMilli(t time.Time) int64 {
 type denoter struct {
 	names map[string]string
 	ptrs  map[unsafe.Pointer]*hspec.Value
+	maps  map[unsafe.Pointer]*hspec.Value
 	depth int
 }
 
 // Denote maps a Go value to the abstract Hessian value the documented
 // Go<->Hessian mapping intends for it.
 func Denote(v interface{}, nameMap map[string]string) *hspec.Value {
-	d := &denoter{names: nameMap, ptrs: map[unsafe.Pointer]*hspec.Value{}}
+	d := &denoter{names: nameMap, ptrs: map[unsafe.Pointer]*hspec.Value{}, maps: map[unsafe.Pointer]*hspec.Value{}}
 	if v == nil {
 		return hspec.Null()
 	}
@@ -115,10 +116,10 @@ func (d *denoter) val(v reflect.Value) *hspec.Value {
 		d.object(n, v)
 		return n
 	case reflect.Slice, reflect.Array:
-		if t.Elem().Kind() == reflect.Uint8 {
-			if t.Kind() == reflect.Slice {
-				return hspec.Binary(append([]byte{}, v.Bytes()...))
-			}
+		if t.Elem().Kind() == reflect.Uint8 && t.Kind() == reflect.Slice && t.Name() == "" {
+			// the unnamed []byte is binary; a NAMED byte-slice type goes the way of every
+			// other slice (a list under its registered name), as the documented kind table says
+			return hspec.Binary(append([]byte{}, v.Bytes()...))
 		}
 		typ := ""
 		if reg, ok := d.names[GoTypeName(t)]; ok && !rootElemIsInterface(t) {
@@ -131,7 +132,17 @@ func (d *denoter) val(v reflect.Value) *hspec.Value {
 		}
 		return l
 	case reflect.Map:
+		// a non-empty map reached over two paths is one node (maps are reference values)
+		if v.Len() > 0 {
+			key := unsafe.Pointer(v.Pointer())
+			if n, ok := d.maps[key]; ok {
+				return n
+			}
+		}
 		m := hspec.Map("")
+		if v.Len() > 0 {
+			d.maps[unsafe.Pointer(v.Pointer())] = m
+		}
 		if reg, ok := d.names[t.Name()]; ok && t.Name() != "" {
 			m.Type = reg
 			m.MapTyped = true
